@@ -12,6 +12,7 @@ LEVEL_TEXT = ("Coq theorems over a Gallina model of DnsIncoming::new, for every 
               "compared with the real decoder on every run (valid, mutated, hostile grammar, random datagrams; "
               "exhaustive small alphabet in the thorough tier)")
 TECHNIQUE = "machine-checked proof in Coq (totality and bounds by induction on fuel/offset measures) + model/implementation correspondence"
+MODEL_GROUP = "codec"
 THEOREM_FILE = "Props/C01.v"
 LEVELS = "K1-decode (DnsIncoming::new on raw datagrams, full decoded message compared)"
 RULE = ("datagrams from five families: uniformly random, mutations/truncations of valid packets, "
